@@ -186,6 +186,10 @@ M = [
       old="                .overflowing_shr_vartime(Self::BITS - shift)\n                .unwrap_or(Self::ZERO);",
       new="                .overflowing_shr_vartime(Self::BITS - shift)\n                .expect(\"shift within range\");",
       expect="c11.panic|uint::shl::<impl uint::Uint<_>>::overflowing_shl_vartime_wide|panic:ConstCtOption:expect"),
+ dict(name="adc_mul_limbs_wide_carry_wrapping_add", prop="C03", file="src/uint/mul/karatsuba.rs",
+      old="        (out[i + j], carry) = out[i + j].adc(carry2, carry);\n        i += 1;\n    }\n\n    carry\n}",
+      new="        carry = carry.wrapping_add(carry2);\n        (out[i + j], carry) = out[i + j].adc(Limb::ZERO, carry);\n        i += 1;\n    }\n\n    carry\n}",
+      expect="carry.widesum|uint::mul::karatsuba::adc_mul_limbs|mac"),
  # --- C19
  dict(name="random_mod_core_polarity", prop="C19", file="src/uint/rand.rs",
       old="        if n.ct_lt(modulus).into() {\n            break;", new="        if !bool::from(n.ct_lt(modulus)) {\n            break;",
